@@ -116,6 +116,8 @@ def h_autoescape(opname: str, n: int, esckind: str, other: str, escch: str) -> b
         esc = "_"
     elif esckind == "slash":
         esc = "/"
+    elif esckind.startswith("chr:"):
+        esc = chr(int(esckind[4:]))
     else:
         assume(len(escch) == 1)
         esc = escch
@@ -123,6 +125,11 @@ def h_autoescape(opname: str, n: int, esckind: str, other: str, escch: str) -> b
         assume(ch != "\x00")
     if esc is not None:
         assume(esc != "\x00")
+    if esckind.startswith("chr:"):
+        # small adversarial alphabet: if the implementation hands the operand to C (re, str.translate ...)
+        # the engine enumerates values, which only terminates over a finite alphabet
+        for ch in other:
+            assume(ch == "%" or ch == "_" or ch == esc or ch == "a" or ch == "\\" or ch == "'")
     cap = _Capture()
     OPS[opname](cap, other, escape=esc, autoescape=True)
     if len(cap.calls) != 1:
@@ -161,7 +168,7 @@ META = {
                    "LIKE. Concrete replay additionally runs the expression built through the public API on sqlite3 (case_sensitive_like) against Python's test.",
     "functions": ["sql.operators._escaped_like_impl", "operators.startswith_op/endswith_op/contains_op/istartswith_op/iendswith_op/icontains_op/not_*_op (argument plumbing)",
                   "ColumnOperators.startswith/endswith/contains + SQLCompiler.visit_*_op_binary on sqlite (replay only)"],
-    "bounds": {"quick": {"operand": "any unicode string of length <= 3 (no NUL)", "escape": "None(default '/'), '%', '_', '/', any single char"},
+    "bounds": {"quick": {"operand": "any unicode string of length <= 3 (no NUL)", "escape": "None(default '/'), '%', '_', '/', any single char (symbolic), and 36 concrete regex/format/SQL metacharacters"},
                "thorough": {"operand": "length <= 4", "escape": "same"}},
     "outside": ["collation / case folding of the i-variants on real backends", "backends other than SQLite for the executed confirmation", "operands longer than the bound"],
     "stubs": ["the column is a recording stub (captures method name, pattern, escape)"],
@@ -169,14 +176,20 @@ META = {
 }
 
 
+# concrete escape characters that are special in regular expressions, format strings, SQL or Python escapes
+ESC_TABLE = tuple("chr:%d" % ord(c) for c in "\\^$.[]-*+?(){}|!#~'\"aA0 \n\t\u00e9&<>=,;:@`")
+
+
 def harnesses(tier: str) -> List[Harness]:
     maxn = 3 if tier == "quick" else 4
     sl = []
     for op in OPS:
         for n in range(0, maxn + 1):
-            for ek in ("none", "percent", "underscore", "slash", "any"):
-                if op.startswith(("i", "not_")) and (n > 2 or ek == "any"):
+            for ek in ("none", "percent", "underscore", "slash", "any") + ESC_TABLE:
+                if op.startswith(("i", "not_")) and (n > 2 or ek == "any" or ek.startswith("chr:")):
                     continue  # variants share _escaped_like_impl; plumbing is covered at small sizes
+                if ek.startswith("chr:") and (op != "contains" or n > 2):
+                    continue
                 sl.append(dict(opname=op, n=n, esckind=ek))
     return [
         Harness("autoescape", h_autoescape, sl, budget_s=40 if tier == "quick" else 240),
@@ -194,9 +207,14 @@ def classify(hname, args, rep):
         if "_" in other:
             feat.append("underscore")
         esc = {"none": "/", "percent": "%", "underscore": "_", "slash": "/"}.get(ek, args.get("escch"))
+        if ek.startswith("chr:"):
+            esc = chr(int(ek[4:]))
         if esc and esc in other and esc not in "%_":
             feat.append("escchar")
-        esckey = ek if ek != "any" else ("any:" + ("wildcard" if esc in ("%", "_") else "other"))
+        if esc == "%":
+            return ("C08:escape-is-percent:own-wildcard-becomes-escape",
+                    "%s(%r, escape='%%', autoescape=True): the '%%' wildcard the operator itself adds is read as an escape character (x LIKE p || '%%' ESCAPE '%%'), so the operator does not match as documented" % (args["opname"], other))
+        esckey = ek if (ek != "any" and not ek.startswith("chr:")) else ("any:" + ("wildcard" if esc in ("%", "_") else "other"))
         return ("C08:autoescape:escape=%s:operand-has-%s" % (esckey, "+".join(feat) or "plain"),
                 "%s(%r, escape=%r, autoescape=True) produces a pattern that does not decode to the literal operand / disagrees with sqlite3" % (args["opname"], other, esc))
     return ("C08:%s:%s" % (hname, args.get("opname")), "%s fails on %s" % (hname, args))
